@@ -68,7 +68,7 @@ Definition pk_step (multiline : bool) (hints : list bytes) (s : pk) (line : byte
       | None => {| k_rtn := dict_set (k_rtn s) (strip line) (PStr DEFAULT); k_key := None; k_val := k_val s |}
       | Some k0 =>
           if multiline then {| k_rtn := k_rtn s; k_key := k_key s; k_val := k_val s ++ LF :: line |}
-          else {| k_rtn := dict_set (dict_set (k_rtn s) k0 (PStr (k_val s))) (strip line) (PStr DEFAULT);
+          else {| k_rtn := dict_set (store (k_rtn s) k0 (k_val s)) (strip line) (PStr DEFAULT);
                   k_key := None; k_val := [] |}
       end
   end.
